@@ -339,6 +339,37 @@ def freeform_two_contours(sx: int, sy: int, mx: int, my: int, x2: int, y2: int, 
     return _ff_check(shape._element, [(sx, sy), (mx, my), (x2, y2)], ox, oy, 1, 1)
 
 
+_FF2 = '''
+@cond(timeout=600, encodes=ENC_FF + ["pptx.shapes.freeform:FreeformBuilder.shape_offset_x", "pptx.shapes.freeform:FreeformBuilder.shape_offset_y"],
+      bound="a builder used in steps: start + 1 vertex, then (symbolically chosen) a first convert_to_shape and/or a read of "
+            "shape_offset_x/_y, then move_to + 1 more vertex, then the final convert_to_shape; {ax} coordinates any int in "
+            "-10^7..10^7 (other axis concrete), origin 0..10^7, scale 1: the final shape has the bounds of all its vertices, the first "
+            "one those of its own")
+def freeform_builder_reused_{ax}(s: int, a1: int, m: int, a2: int, o: int, convert_first: bool, read_first: bool) -> bool:
+    """
+    pre: all(-FC <= v <= FC for v in (s, a1, m, a2)) and 0 <= o <= FC
+    post: _
+    """
+    shapes = SlideShapes(_sptree(), None)
+    other = [(5, 0), (-3, 0), (9, 0), (-4, 0)]
+    pts = [{mk} for (c, v) in zip(other, (s, a1, m, a2))]
+    fb = shapes.build_freeform(pts[0][0], pts[0][1], scale=1)
+    fb.add_line_segments([pts[1]], close=False)
+    ok = True
+    if read_first:
+        ok = ok and fb.shape_offset_x == min(pts[0][0], pts[1][0]) and fb.shape_offset_y == min(pts[0][1], pts[1][1])
+    if convert_first:
+        first = fb.convert_to_shape({origin})
+        ok = ok and _ff_check(first._element, pts[:2], {oxy}, 1, 1)
+    fb.move_to(pts[2][0], pts[2][1])
+    fb.add_line_segments([pts[3]], close=False)
+    shape = fb.convert_to_shape({origin})
+    return ok and _ff_check(shape._element, pts, {oxy}, 1, 1)
+'''
+gen(_FF2.format(ax="x", mk="(v, c[0])", origin="o, 7", oxy="o, 7"), globals())
+gen(_FF2.format(ax="y", mk="(c[0], v)", origin="7, o", oxy="7, o"), globals())
+
+
 @cond(expect="refute", timeout=120, twin_of="freeform_two_contours")
 def freeform_twin(sx: int, sy: int, x1: int, y1: int, mx: int, my: int, x2: int, y2: int) -> bool:
     """
